@@ -97,7 +97,51 @@ Proof.
     rewrite (nil_of_len0 E0). reflexivity. }
   destruct (Z_lt_le_dec ((16 + A + 0) mod 4096) 16) as [Pg|Pg].
   - (* the 16-byte load at s would cross into the next page: load the 16 bytes that END at the end of s *)
-    admit.
+    set (n := length s). assert (Hn : len = Z.of_nat n) by reflexivity.
+    assert (Hrd : forall k, (k < 16)%nat -> readable A s (-16 + A + len * 1 + Z.of_nat k) = true).
+    { intros k Hk. destruct (Z_lt_le_dec (-16 + A + len * 1 + Z.of_nat k) A) as [Lo|Hi].
+      - apply (readable_first_page A s junk); lia.
+      - apply (readable_inside A s junk); lia. }
+    set (J := bytes_at A s junk (A - Z.of_nat (16 - n)) (16 - n)).
+    assert (Eb : bytes_at A s junk (-16 + A + len * 1) 16 = J ++ s).
+    { replace (-16 + A + len * 1) with (A - Z.of_nat (16 - n)) by lia.
+      pose proof (bytes_at_app A s junk (A - Z.of_nat (16 - n)) (16 - n) n) as B.
+      replace ((16 - n) + n)%nat with 16%nat in B by lia. rewrite B.
+      replace (A - Z.of_nat (16 - n) + Z.of_nat (16 - n)) with A by lia. unfold J. f_equal. apply bytes_at_whole. }
+    assert (LJ : length (J ++ s) = 16%nat) by (rewrite app_length; unfold J; rewrite bytes_at_length; lia).
+    assert (LJ0 : length J = (16 - n)%nat) by (unfold J; apply bytes_at_length).
+    pose proof (movmsk_range s) as Rs. fold n in Rs. pose proof (movmsk_range J) as RJ. rewrite LJ0 in RJ.
+    (* kept under [id] so that the later calls of lia do not pick this non-linear fact up *)
+    assert (Hshift : id (((movmsk (J ++ s) mod two32 * 2 ^ (len mod two32 mod 32) mod two32) mod two32 / 2 ^ (16 mod two64 mod 32)) mod two32 = movmsk s)).
+    { unfold id. assert (Emsk : movmsk (J ++ s) = movmsk J + 2 ^ Z.of_nat (16 - n) * movmsk s) by (rewrite movmsk_app, LJ0; reflexivity).
+      change (16 mod two64) with 16. replace (len mod two32) with (Z.of_nat n) by (unfold two32; lia).
+      rewrite Emsk. clear Emsk. rewrite (shift_out_junk (movmsk J) (movmsk s) n) by lia.
+      assert (H15 : 2 ^ Z.of_nat n <= 2 ^ 15) by (apply Z.pow_le_mono_r; lia). change (2 ^ 15) with 32768 in H15.
+      apply Z.mod_small. unfold two32. lia. }
+    destruct (Z.eq_dec (movmsk s) 0) as [Mz|Mnz].
+    + exists 16%nat. xstep. rewrite holds_cmp_LT by (unfold two63; lia). replace (len <? 16) with true by lia. cbv iota.
+      xstep. xstep. cbn [holds zf]. rewrite Z.land_diag. replace (len =? 0) with false by lia. cbv iota.
+      xstep. rewrite in64_true by (unfold two64; lia). cbv iota.
+      xstep. xstep. cbn [holds zf]. rewrite testw_page by lia. replace ((16 + A + 0) mod 4096 <? 16) with true by lia. cbv iota.
+      xstep. rewrite (load_bytes A s junk 16 _ Hrd), Eb. cbv iota.
+      xstep. xstep. rewrite (vlow_vput 16 _ _ LJ).
+      xstep. xstep. xstep. xstep. unfold id in Hshift. rewrite Hshift, Mz. clear Hshift. change (0 =? 0) with true. cbv iota.
+      xstep. cbn [holds zf]. cbv iota.
+      xstep. replace (0 + slot + 0 =? slot) with true by lia. cbv iota. rewrite store_m1. xstep.
+      f_equal. f_equal. symmetry. apply movmsk_zero. exact Mz.
+    + assert (Hbsf : bsf (movmsk s) = fh s) by (apply bsf_movmsk; [fold n; lia|exact Mnz]).
+      pose proof (fh_range s) as Rfs. fold n in Rfs.
+      assert (Hne : fh s <> -1) by (intros E; apply movmsk_zero in E; congruence).
+      exists 16%nat. xstep. rewrite holds_cmp_LT by (unfold two63; lia). replace (len <? 16) with true by lia. cbv iota.
+      xstep. xstep. cbn [holds zf]. rewrite Z.land_diag. replace (len =? 0) with false by lia. cbv iota.
+      xstep. rewrite in64_true by (unfold two64; lia). cbv iota.
+      xstep. xstep. cbn [holds zf]. rewrite testw_page by lia. replace ((16 + A + 0) mod 4096 <? 16) with true by lia. cbv iota.
+      xstep. rewrite (load_bytes A s junk 16 _ Hrd), Eb. cbv iota.
+      xstep. xstep. rewrite (vlow_vput 16 _ _ LJ).
+      xstep. xstep. xstep. xstep. unfold id in Hshift. rewrite Hshift. clear Hshift. replace (movmsk s =? 0) with false by lia. cbv iota. rewrite Hbsf.
+      xstep. cbn [holds zf]. cbv iota.
+      xstep. replace (0 + slot + 0 =? slot) with true by lia. cbv iota. xstep.
+      f_equal. f_equal. unfold signed64, two63. replace (fh s <? 9223372036854775808) with true by lia. reflexivity.
   - (* load 16 bytes at s: s followed by 16 - len bytes of the same page *)
     set (n := length s). assert (Hn : len = Z.of_nat n) by reflexivity.
     assert (Hrd : forall k, (k < 16)%nat -> readable A s (0 + A + 0 + Z.of_nat k) = true).
@@ -121,8 +165,33 @@ Proof.
       xstep. cbn [holds zf]. cbv iota.
       xstep. replace (0 + slot + 0 =? slot) with true by lia. cbv iota. rewrite store_m1. xstep.
       f_equal. f_equal. symmetry. apply movmsk_zero. assert (0 <= 2 ^ Z.of_nat n) by (apply Z.pow_nonneg; lia). nia.
-    + admit.
-Admitted.
+    + (* a high byte among the 16: in s iff its index is below len *)
+      set (k := fh (s ++ J)).
+      assert (Hk : 0 <= k < 16).
+      { destruct (fh_range (s ++ J)) as [E|E]; [apply movmsk_zero in E; congruence|]. rewrite LJ in E. exact E. }
+      assert (Hbsf : bsf (movmsk (s ++ J)) = k) by (apply bsf_movmsk; [rewrite LJ; lia|exact Mnz]).
+      assert (Hks : k = if fh s <? 0 then (if fh J <? 0 then -1 else Z.of_nat n + fh J) else fh s) by (unfold k; apply fh_app).
+      pose proof (fh_range s) as Rfs. fold n in Rfs. pose proof (fh_range J) as RfJ.
+      exists 15%nat. xstep. rewrite holds_cmp_LT by (unfold two63; lia). replace (len <? 16) with true by lia. cbv iota.
+      xstep. xstep. cbn [holds zf]. rewrite Z.land_diag. replace (len =? 0) with false by lia. cbv iota.
+      xstep. rewrite in64_true by (unfold two64; lia). cbv iota.
+      xstep. xstep. cbn [holds zf]. rewrite testw_page by lia. replace ((16 + A + 0) mod 4096 <? 16) with false by lia. cbv iota.
+      xstep. rewrite (load_bytes A s junk 16 _ Hrd), Eb. cbv iota.
+      xstep. xstep. rewrite (vlow_vput 16 _ _ LJ).
+      xstep. rewrite (movmsk_small16 _ LJ). replace (movmsk (s ++ J) =? 0) with false by lia. cbv iota. rewrite Hbsf.
+      xstep. cbn [holds zf]. cbv iota.
+      xstep. xstep. rewrite holds_cmp_AE. unfold two32.
+      rewrite (Z.mod_small k) by lia. rewrite (Z.mod_small len) by lia.
+      assert (Hcase : (fh s = -1 /\ len <= k) \/ (0 <= fh s /\ k = fh s /\ k < len)).
+      { destruct (fh s <? 0) eqn:Fs; destruct (fh J <? 0) eqn:FJ; lia. }
+      destruct Hcase as [[Fs Hge]|(Fs & Ek & Hlt)].
+      * (* the first high byte lies beyond s *)
+        replace (len <=? k) with true by lia. cbv iota.
+        xstep. replace (0 + slot + 0 =? slot) with true by lia. cbv iota. rewrite store_m1. xstep. congruence.
+      * replace (len <=? k) with false by lia. cbv iota.
+        xstep. replace (0 + slot + 0 =? slot) with true by lia. cbv iota. xstep.
+        f_equal. f_equal. unfold signed64, two63. replace (k <? 9223372036854775808) with true by lia. lia.
+Qed.
 
 
 End K.
